@@ -25,7 +25,7 @@ EXPLANATION = (
     "added on every path to the next section, compact arrays get sub-index 0 (UNSIGNED8) and the template at 1, name "
     "lists cover 1..NrOfEntries, comments/bit rate/baud-rate options/DeviceInfo stores; R11 implicit array members "
     "(sub-indices 1..255, template = sub-index 1, attribute list, parent link), copy_variable changes only name and "
-    "sub-index, the indirect-type threshold leaves every standard type code alone. R12 [R13: ODVariable.__len__ gives every data type its width and is never 0 (shared with C04.R5)] no class-level mutable object is mutated in place by instances (each node/client/map/dictionary has its own state)."
+    "sub-index, the indirect-type threshold leaves every standard type code alone; R13 ODVariable.__len__ is positive for every data type and there is no __bool__ (lookups `names.get(k) or indices.get(k)` select by truthiness); R12 structural assumptions shared by all properties: no class-level mutable object is mutated in place by instances, no method re-runs the constructor, logging statements cannot raise."
 )
 ASSUMPTIONS = [
     "not decided: fidelity for every EDS text; configparser semantics are the trusted base",
